@@ -198,6 +198,8 @@ octosql "SELECT * FROM plugins.plugins"`,
 			"tsv":     csv.Creator('\t'),
 		}
 		for ext, pluginName := range fileExtensionHandlers {
+			// The handler outlives the iteration, so it needs its own copies of the loop variables.
+			ext, pluginName := ext, pluginName
 			fileHandlers[ext] = func(ctx context.Context, name string, options map[string]string) (physical.DatasourceImplementation, physical.Schema, error) {
 				db, err := databases[pluginName]()
 				if err != nil {
